@@ -170,7 +170,12 @@ func ruleU2(c *Ctx, id string) {
 	}
 	R.Analysed[FuncName(cm)] = true
 	flush := P.NewAlways(callTo(walFlush))
-	R.Check(flush.Func(V.CommitFh), id, "fstxn.CommitFh|always flushes the log", P.Pos(V.CommitFh.Pos()), "every path of CommitFh reaches wal.Flush (through obj.Log.Flush), independently of whether the committing transaction has dirty buffers", "always-performs summary through obj.Log.Flush", "COMMIT's transaction is read-only, so a commit path that flushes only when there are dirty buffers (jrnl.CommitWait) acknowledges COMMIT without flushing earlier unstable writes")
+	flushes := flush.Func(V.CommitFh)
+	if e := commitProtocol(c).byFn[V.CommitFh]; !flushes && e != nil {
+		// the flush is a journal action handed to a helper as a function literal: explored path by path
+		flushes = !e.exceeded && e.reachedDur && !e.noDurPath && !e.noFlushPath
+	}
+	R.Check(flushes, id, "fstxn.CommitFh|always flushes the log", P.Pos(V.CommitFh.Pos()), "every path of CommitFh reaches wal.Flush (through obj.Log.Flush), independently of whether the committing transaction has dirty buffers", "always-performs summary through obj.Log.Flush", "COMMIT's transaction is read-only, so a commit path that flushes only when there are dirty buffers (jrnl.CommitWait) acknowledges COMMIT without flushing earlier unstable writes")
 	calls := P.CallsIn(cm, funcIs(V.CommitFh))
 	R.Check(len(calls) == 1, id, "NFSPROC3_COMMIT|calls CommitFh", P.Pos(cm.Pos()), "COMMIT ends its transaction with CommitFh", "one call", "COMMIT does not flush")
 	for _, call := range calls {
